@@ -147,7 +147,7 @@ def check(pid, tier, seed):
     changed, err = C.regen_facts()
     if err:
         R.violation({"broken": "facts extractor failed on /repo", "detail": err[-2000:]}, "extract", no_input=True)
-    build_targets = ["ShipVerif", "shipdrv"]
+    build_targets = ["ShipVerif.Props.ConnProps", "shipdrv"]
     if "Facts.lean" in changed:
         C.log("facts changed: recomputing the reachable set")
         C.regen_conn_reach()
@@ -158,7 +158,7 @@ def check(pid, tier, seed):
         C.regen_conn_reach()
         p = C.lake_build(build_targets)
         lean_ok = p.returncode == 0
-    aud = C.audit(pid, obligations) if lean_ok else []
+    aud = C.audit(pid, obligations, ["ShipVerif.Props.ConnProps"]) if lean_ok else []
     forb = C.grep_forbidden()
     discharged = sum(1 for a in aud if a["ok"]) if lean_ok and not forb else 0
     # 2. implementation side
